@@ -254,6 +254,74 @@ Lemma transition_probability_length d c (Fm Q : 'M[F]_d) (prev cur : 'M[F]_(d, c
   length (transition_probability (O:=O) Fm Q prev cur) = c.
 Proof. by rewrite /transition_probability map_length seq_length. Qed.
 
+(* ---------------------------------------------------------------- the WNA model as a whole *)
+
+Lemma wna_Q_unit d (T q : F) : 0 < T -> 0 < q -> (wna_Q (O:=O) d T q : 'M[F]_(dim_n d)) \in unitmx.
+Proof. by move=> T0 q0; apply: spd_unit; exact: wna_Q_spd. Qed.
+
+(* the LDLT oracle's contract *)
+Definition sqrt_contract := forall n (P : 'M[F]_n), spd P -> sq P *m (sq P)^T = P.
+
+Lemma wna_sqrtQ_contract d (T q : F) : sqrt_contract -> 0 < T -> 0 < q ->
+  (wna_sqrtQ (O:=O) d T q : 'M[F]_(dim_n d)) *m (wna_sqrtQ (O:=O) d T q : 'M[F]_(dim_n d))^T = wna_Q (O:=O) d T q.
+Proof. by move=> C T0 q0; rewrite /wna_sqrtQ /=; apply: C; exact: wna_Q_spd. Qed.
+
+Lemma wna_noise_sample_spec d (T q : F) num zs :
+  (wna_noise_sample (O:=O) d T q num zs).2 = skipn (dim_n d * num) zs /\
+  forall (i : 'I_(dim_n d)) (j : 'I_num),
+    ((wna_noise_sample (O:=O) d T q num zs).1 : 'M[F]_(dim_n d, num)) i j =
+    \sum_(k < dim_n d) (wna_sqrtQ (O:=O) d T q : 'M[F]_(dim_n d)) i k * List.nth (j * dim_n d + k)%N zs 0.
+Proof. by split=> // i j; rewrite /wna_noise_sample noise_sample_entry. Qed.
+
+Lemma wna_noise_cov d (T q : F) num zs : sqrt_contract -> 0 < T -> 0 < q ->
+  let Z : 'M[F]_(dim_n d, num) := fill_colmajor (O:=O) (dim_n d) num zs in
+  let W : 'M[F]_(dim_n d, num) := (wna_noise_sample (O:=O) d T q num zs).1 in
+  Z *m Z^T = 1%:M -> W *m W^T = wna_Q (O:=O) d T q.
+Proof.
+move=> C T0 q0 Z W ZZ; rewrite /W /wna_noise_sample noise_sample_fst.
+by apply: linear_image_cov => //; exact: wna_sqrtQ_contract.
+Qed.
+
+Lemma wna_motion_eq d (T q : F) c (X : 'M[F]_(dim_n d, c)) zs :
+  wna_motion (O:=O) d T q X zs =
+  ((wna_F (O:=O) d T : 'M[F]_(dim_n d)) *m X
+     + (wna_sqrtQ (O:=O) d T q : 'M[F]_(dim_n d)) *m (fill_colmajor (O:=O) (dim_n d) c zs : 'M[F]_(dim_n d, c)),
+   skipn (dim_n d * c) zs).
+Proof. by []. Qed.
+
+Lemma wna_transition_density d (T q : F) c (prev cur : 'M[F]_(dim_n d, c)) :
+  length (wna_transition_probability (O:=O) d T q prev cur) = c /\
+  forall (j : 'I_c) dflt,
+    List.nth j (wna_transition_probability (O:=O) d T q prev cur) dflt =
+    density (O:=O) (col j cur) ((wna_F (O:=O) d T : 'M[F]_(dim_n d)) *m col j prev) (wna_Q (O:=O) d T q).
+Proof.
+split; first exact: transition_probability_length.
+by move=> j dflt; rewrite /wna_transition_probability transition_probability_nth.
+Qed.
+
+(* the simulated trajectory over this model: x_{k+1} = F x_k + L z_k, z_k the k-th group of
+   dim_n d consecutive draws *)
+Definition wna_motion1 d (T q : F) : M O (dim_n d) 1 -> list F -> M O (dim_n d) 1 * list F :=
+  fun x z => wna_motion (O:=O) d T q (c:=1) x z.
+
+Lemma skipn_skipn' (A : Type) a b (l : list A) : skipn a (skipn b l) = skipn (b + a) l.
+Proof. by elim: b l => [|b IH] [|x l] //=; rewrite skipn_nil. Qed.
+
+Lemma wna_iter_draws d (T q : F) (x0 : 'cV[F]_(dim_n d)) zs k :
+  (iter_motion (@wna_motion1 d T q) k (x0, zs)).2 = skipn (dim_n d * k) zs.
+Proof.
+elim: k => [|k IH]; first by rewrite muln0.
+rewrite [iter_motion _ _ _]/= /wna_motion1 wna_motion_eq [(_, _).2]/= IH skipn_skipn'.
+by congr (skipn _ _); rewrite -!multE Nat.mul_1_r -plusE -mult_n_Sm.
+Qed.
+
+Lemma wna_iter_step d (T q : F) (x0 : 'cV[F]_(dim_n d)) zs k :
+  ((iter_motion (@wna_motion1 d T q) k.+1 (x0, zs)).1 : 'cV[F]_(dim_n d)) =
+  (wna_F (O:=O) d T : 'M[F]_(dim_n d)) *m (iter_motion (@wna_motion1 d T q) k (x0, zs)).1
+  + (wna_sqrtQ (O:=O) d T q : 'M[F]_(dim_n d))
+      *m (fill_colmajor (O:=O) (dim_n d) 1 (skipn (dim_n d * k) zs) : 'cV[F]_(dim_n d)).
+Proof. by rewrite [iter_motion _ _ _]/= /wna_motion1 wna_motion_eq [(_, _).1]/= wna_iter_draws. Qed.
+
 (* ---------------------------------------------------------------- selector matrix *)
 
 Lemma eqbE (a b : nat) : Nat.eqb a b = (a == b).
@@ -293,11 +361,10 @@ Qed.
 
 (* ---------------------------------------------------------------- grid initialiser *)
 
+Lemma ZofnatE k : (Z_to_int (Z.of_nat k))%:~R = k%:R :> F.
+Proof. by case: k => [|k] //=; rewrite SuccNat2Pos.id_succ. Qed.
 Lemma sofnatE k : sofnat (sc O) k = k%:R :> F.
-Proof.
-rewrite /sofnat /=; case: k => [|k] //=.
-by rewrite SuccNat2Pos.id_succ.
-Qed.
+Proof. exact: ZofnatE. Qed.
 
 Lemma mx_get_set_col r c (A : 'M[F]_(r, c)) k v i j : (i < r)%N -> (j < c)%N ->
   mx_get (set_col (O:=O) A k v) i j = if j == k then v i else mx_get A i j.
@@ -352,19 +419,29 @@ Proof.
 rewrite /grid_initialize eqbE; case: eqP => [e|//] /= [<- <-]; split=> //; split.
   move=> i j r ix jy r4.
   have kn : (i * ny + j < np)%N.
-    by rewrite e; apply: (@leq_trans (i.+1 * ny)%N); rewrite ?leq_mul2r ?ix ?orbT // mulSn addnC ltn_add2l.
+    by rewrite e; apply: (@leq_trans (i.+1 * ny)%N); rewrite ?leq_mul2r ?ix ?orbT // mulSn [(ny + _)%N]addnC ltn_add2l.
   pose g (p : nat * nat) := (p.1 * ny + p.2)%N.
   pose v (p : nat * nat) := grid_point (O:=O) xinf (xsup - xinf) yinf (ysup - yinf) nx ny p.1 p.2.
   rewrite -[LHS]/(mx_get (fold_left (fun B p => set_col (O:=O) B (g p) (v p)) (grid_pairs nx ny) st) r (g (i, j))).
   rewrite (@fold_set_col 4 np g v) //; first by apply/grid_pairs_in.
   case=> i1 j1 /grid_pairs_in [_ j1y] /= E.
   exact: (grid_index_inj j1y jy E).
-by move=> k kn; rewrite /mconst /= mx_get_build // sofnatE.
+by move=> k kn; rewrite /mconst /= mx_get_build // ZofnatE.
 Qed.
+
+Lemma grid_positions st' w' : grid_initialize (O:=O) xinf xsup yinf ysup nx ny st w = Some (st', w') ->
+  forall i j r, (i < nx)%N -> (j < ny)%N -> (r < 4)%N ->
+     mx_get (st' : 'M[F]_(4, np)) r (i * ny + j) =
+     grid_point (O:=O) xinf (xsup - xinf) yinf (ysup - yinf) nx ny i j r.
+Proof. by case/grid_result=> _ []. Qed.
+
+Lemma grid_weights st' w' : grid_initialize (O:=O) xinf xsup yinf ysup nx ny st w = Some (st', w') ->
+  np = (nx * ny)%N /\ forall k, (k < np)%N -> mx_get (w' : 'cV[F]_np) k 0 = - t_ln tr (np%:R).
+Proof. by case/grid_result=> e [_ W]. Qed.
 
 (* the coordinates in closed form, and the grid spans the area *)
 Lemma grid_coordE delta inf n i : grid_coord (O:=O) delta inf n i = inf + i%:R * (delta / (n%:R - 1)) :> F.
-Proof. by rewrite /grid_coord /= !sofnatE addrC mulrC. Qed.
+Proof. by rewrite /grid_coord /sofnat /= !ZofnatE addrC mulrC. Qed.
 
 Lemma grid_coord_first delta inf n : grid_coord (O:=O) delta inf n 0 = inf :> F.
 Proof. by rewrite grid_coordE mul0r addr0. Qed.
@@ -377,5 +454,39 @@ have nz : n%:R - 1 != 0 :> F.
   by rewrite subr_eq0 -[1]/(1%:R) eqr_nat neq_ltn orbC n2.
 by rewrite mulrCA divff // mulr1 addrC subrK.
 Qed.
+
+Lemma grid_positions_closed st' w' : grid_initialize (O:=O) xinf xsup yinf ysup nx ny st w = Some (st', w') ->
+  forall i j r, (i < nx)%N -> (j < ny)%N -> (r < 4)%N ->
+    mx_get (st' : 'M[F]_(4, np)) r (i * ny + j) =
+    match r with
+    | 0%N => xinf + i%:R * ((xsup - xinf) / (nx%:R - 1))
+    | 2%N => yinf + j%:R * ((ysup - yinf) / (ny%:R - 1))
+    | _ => 0
+    end.
+Proof.
+move=> E i j r ix jy r4; rewrite (grid_positions E) //.
+by case: r r4 => [|[|[|r]]] //= _; rewrite grid_coordE.
+Qed.
+
+Lemma grid_spans (inf sup : F) n : (2 <= n)%N ->
+  grid_coord (O:=O) (sup - inf) inf n 0 = inf /\ grid_coord (O:=O) (sup - inf) inf n n.-1 = sup.
+Proof. by move=> n2; split; [exact: grid_coord_first | exact: grid_coord_last]. Qed.
 End Grid.
+
+(* every column and every weight is written: the result does not depend on the previous content *)
+Lemma grid_overwrites xinf xsup yinf ysup nx ny np (st st2 : 'M[F]_(4, np)) (w w2 : 'cV[F]_np) :
+  grid_initialize (O:=O) xinf xsup yinf ysup nx ny st w = grid_initialize (O:=O) xinf xsup yinf ysup nx ny st2 w2.
+Proof.
+case E1: (grid_initialize (O:=O) xinf xsup yinf ysup nx ny st w) => [[s1 w1]|];
+  case E2: (grid_initialize (O:=O) xinf xsup yinf ysup nx ny st2 w2) => [[s2 w2']|] //.
+- have [e [P1 W1]] := grid_result E1; have [_ [P2 W2]] := grid_result E2.
+  congr (Some (_, _)).
+    apply/matrixP => r k; rewrite -!mx_get_ord.
+    have kn : (k < nx * ny)%N by rewrite -e.
+    have ny0 : (0 < ny)%N by case: (ny) kn => [|//]; rewrite muln0.
+    by rewrite [nat_of_ord k](divn_eq k ny) P1 ?P2 // ?ltn_pmod // ltn_divLR.
+  by apply/matrixP => k z; rewrite (ord1 z) -[LHS]mx_get_ord -[RHS]mx_get_ord W1 ?W2.
+- by have [e _] := grid_result E1; move/grid_refusal: E2.
+- by have [e _] := grid_result E2; move/grid_refusal: E1.
+Qed.
 End G.
